@@ -13,15 +13,19 @@ ASSUMPTIONS = [
     'the reader is observed on the real code in worker processes; attribute values are compared exactly (rate constants after flint)',
 ]
 MANIFEST = {
-    'text': 'Partial. Decided on the real reader by an independent abstract model of PIL systems: every declared domain (with its '
-            'complement, lengths, sequence constraints and reverse Watson-Crick complements), strand, complex (sequence and structure '
-            'for both notations), concentration triple, macrostate and reaction (members, type, rate constant, units, condensed vs '
-            'detailed) must appear under its name with exactly the declared attributes, referenced objects must be the identical '
-            'singletons, `ignore` must skip the listed kinds, and every line read on its own must yield the object of the document. The Lean '
-            'side contributes the theorems of the pieces the reader is built from (C17 reverse complement exactness, C12 kernel '
-            'translation, C02 canonical rotation, C01 singleton identity) - there is no end-to-end Lean theorem read_builds_sigma.',
-    'note': 'No end-to-end Lean model of read_pil; the property is checked by exploration on the real code against an independent model.',
-    'technique': 'model-based oracle on the real reader; Lean theorems for the component functions (C01, C02, C12, C17)',
+    'text': 'Partial. The whole reader is inside the Lean model (Model/Reader.lean: read_pil / read_pil_line / read_reaction over the '
+            'regenerated grammar, the kernel translation, composite-domain expansion, the object world and the IUPAC tables) and is tied '
+            'to the code by a correspondence stream: every generated document is read by both and the complete result dictionaries '
+            '(domains with lengths and sequences incl. derived complements, strands, complexes with sequence / structure / concentration, '
+            'macrostates, detailed and condensed reactions with type / rate / units, number of ignored lines, registries after release) are '
+            'compared. Theorems about the reader model listed in the evidence (ignore_skips, ignored_reaction_survives, '
+            'complement_sequence, failed_read_restores, ... when present) and the component theorems of C01, C02, C12/C13 (kernel_rt, '
+            'resolve_kernel_inverse) and C17 carry the pieces; there is no single end-to-end theorem read_builds_sigma. The property '
+            'itself is decided on the real reader by an independent abstract model of PIL systems (all attributes, identical '
+            'singletons, `ignore`, line vs document, several documents per configured session).',
+    'note': 'End-to-end exactness w.r.t. an abstract system is established by exploration on the real code plus model correspondence, '
+            'not by one theorem; trusted base as in DESIGN.md section 3.',
+    'technique': 'Lean 4 model of the whole reader + correspondence on generated systems; theorems for its components; model-based oracle',
 }
 
 
